@@ -168,6 +168,16 @@ CHECKS = {
                      'simulation is covered only through yielded native notifications.',
                 technique='TLA+ script space SimPyEv enumerated by TLC; scripts replayed on the real usim.py layer; traces validated '
                           'by TLC against the TLA+ monitor ObsC18'),
+    'C02': dict(obs='ObsC02', ref='4/C02',
+                text='The operational spec USim is deterministic per program (TLC explores it with the client as the only source '
+                     'of choice); programs over the whole API (TLC witness programs of 8 USim configurations incl. several '
+                     'comparisons on one tracked value, float-date storms, many waiting borrowers) are executed under 8 '
+                     'configurations in separate processes (PYTHONHASHSEED 0/1/random, heap perturbation with unrelated '
+                     'allocations and gc on/off, USIM_WAITQUEUE heap/SD, python -O) and TLC validates the side-by-side record of '
+                     'each program against ObsC02: all runs agree at every position of the trace.',
+                note='Memory layouts are sampled (seeded perturbation), not enumerated; only programs free of usage-assertion '
+                     'violations are compared under -O.',
+                level='model_checking'),
 }
 
 
